@@ -77,7 +77,7 @@ def run(ctx):
                 bit_total += 1
                 if f and f.get("ok") == [kern.bits(x) for x in out["cy"].tolist()]:
                     bit_same += 1
-        if ctx.elapsed() > (90 if q else 900):
+        if ctx.elapsed() > (400 if q else 1800):
             ctx.notes.append("ladder cut at n=%d by the time budget" % n)
             break
     ctx.extra["bit_identical_cy_vs_Float_model"] = "%d/%d" % (bit_same, bit_total)
